@@ -297,6 +297,17 @@ pub fn contract() -> Box<dyn Contract<Empty>> {
     )
 }
 
+/// the scripted contract registered through the `Empty` adapter family (`new_with_empty`, `with_*_empty`):
+/// every response passes through the wrapper's conversion layer before the chain sees it (seed C13e)
+pub fn contract_adapted() -> Box<dyn Contract<Empty>> {
+    Box::new(
+        ContractWrapper::new_with_empty(execute, instantiate, query)
+            .with_reply_empty(reply)
+            .with_sudo_empty(sudo)
+            .with_migrate_empty(migrate),
+    )
+}
+
 /// the scripted contract WITHOUT the optional entry points (no reply, sudo, migrate): a reply that
 /// is due on it cannot be handled, so the failure — or the success — cannot be absorbed there
 pub fn contract_minimal() -> Box<dyn Contract<Empty>> {
